@@ -191,7 +191,7 @@ pub fn spaces<'a>(prop: &'a str, thorough: bool, deadline: Instant, threads: usi
             vec![mk(
                 a,
                 d(4, 5),
-                params(&[Handle::Direct, Handle::Dyn, Handle::DynCore, Handle::RefRef], &[Ctor::TryNew, Ctor::Unallocated], &[z, og2]),
+                params(if thorough { &[Handle::Direct, Handle::Dyn, Handle::DynCore, Handle::RefRef] } else { &[Handle::Direct, Handle::DynCore] }, &[Ctor::TryNew, Ctor::Unallocated], &[z, og2]),
                 FaultMode::None,
                 nontrivial_c01,
                 "every enabled history over the alphabet up to the depth bound, per configuration and run-parameter set; non-trivial = the history performed a realloc, switched chunks, or had >= 2 non-empty live blocks",
